@@ -18,21 +18,18 @@ Notation body_crc := (body_crc crc delcrc).
 
 (* the document an import of [d] writes under CAS [nc] with sequence [seq] *)
 Definition import_vv (d : bdoc) : vvd :=
-  match d_vv d with
-  | Some v => if (v_cvcas v =? d_cas d) || mou_match d then v else mkVV (d_cas d) (d_cas d)
-  | None => mkVV (d_cas d) (d_cas d)
-  end.
+  match import_hlv d with Some v => v | None => mkVV local_src (d_cas d) (d_cas d) [] [] end.
 Definition import_rev (d : bdoc) : rev :=
   R (N.succ (cur_gen d)) (cur_gen d) (negb (is_alive d)) (match raw_of d with Some b => b | None => 0 end).
 Definition import_doc (d : bdoc) (nc seq : N) : bdoc :=
   mkDoc (d_st d) (d_body d) nc
-        (Some (mkSync nc (body_crc d) (v_ver (import_vv d)) (import_rev d :: hist_of d) seq false))
+        (Some (mkSync nc (body_crc d) (v_ver (import_vv d)) (import_rev d :: hist_of d) seq false (v_src (import_vv d))))
         (Some (import_vv d)) (Some (mkMou nc (mou_pcas d))).
 
 Definition import_upd (d : bdoc) (seq : N) : update :=
   mkUpd (negb (is_alive d))
         (if doc_deleted d then Some (match raw_of d with Some b => b | None => 0 end) else None)
-        (mkSync 0 0 (v_ver (import_vv d)) (import_rev d :: hist_of d) seq false) true
+        (mkSync 0 0 (v_ver (import_vv d)) (import_rev d :: hist_of d) seq false (v_src (import_vv d))) true
         (Some (import_vv d, false)) (MouSet (mou_pcas d)).
 
 Lemma import_attempt_write s d s1 u :
@@ -45,6 +42,7 @@ Proof.
   destruct (d_cas d =? 0) eqn:Z; [discriminate|]. apply N.eqb_neq in Z.
   destruct (negb (is_alive d) && negb (has_revtree d)) eqn:RT; [discriminate|].
   destruct (doc_is_sg_write crc delcrc d (raw_of d)) eqn:SG; [discriminate|].
+  unfold import_upd, import_vv. destruct (import_hlv d) as [vv'|]; [|discriminate].
   inversion E; subst. repeat split; auto.
 Qed.
 
@@ -185,12 +183,13 @@ Lemma import_attempt_importable c s d : DocInv c d -> importable d = true ->
   (set_nseq s (N.succ (nseq s)), CbWrite (import_upd d (N.succ (nseq s)))).
 Proof.
   intros D Imp. destruct (importable_facts c d D Imp) as (NZ & RT & SG & _).
-  unfold import_attempt. apply N.eqb_neq in NZ. rewrite NZ, RT, SG. reflexivity.
+  unfold import_attempt. apply N.eqb_neq in NZ. rewrite NZ, RT, SG.
+  unfold import_upd, import_vv. destruct (import_hlv_some crc delcrc c d D) as [vv' E]. rewrite E. reflexivity.
 Qed.
 
-Lemma import_run_progress s :
+Lemma import_run_progress feed s :
   Inv s -> importable (doc s) = true ->
-  import_run true crc delcrc no_fire false (negb (is_alive (doc s))) (doc s) (raw_of (doc s)) s =
+  import_run true crc delcrc no_fire feed (negb (is_alive (doc s))) (doc s) (raw_of (doc s)) s =
   (add_import (set_doc (set_nseq s (N.succ (nseq s))) (import_doc (doc s) (N.succ (clk s)) (N.succ (nseq s)))), IImported).
 Proof.
   intros HI Imp. pose proof (inv_doc _ _ _ _ _ (proj1 HI)) as D.
@@ -223,7 +222,7 @@ Proof.
     { unfold ImportInv.importable, has_sync. rewrite Es, orb_true_r. reflexivity. }
     rewrite Imp. destruct (own (doc s)) eqn:O; cbn [negb].
     + destruct (d_st (doc s)); congruence.
-    + rewrite import_run_progress by (auto; rewrite Imp, O; reflexivity).
+    + rewrite (import_run_progress false) by (auto; rewrite Imp, O; reflexivity).
       destruct (d_st (doc s)); congruence.
   - (* no sync data *)
     assert (O : own (doc s) = false) by (unfold ImportInv.own; rewrite Es; reflexivity).
@@ -236,7 +235,7 @@ Proof.
       assert (T : is_tomb (doc s) = false) by (unfold is_tomb; rewrite St; reflexivity).
       assert (Imp : importable (doc s) = true).
       { unfold ImportInv.importable, has_sync. rewrite Es, O, A. reflexivity. }
-      rewrite import_run_progress by auto.
+      rewrite (import_run_progress false) by auto.
       rewrite A, T.
       rewrite doc_is_sg_write_nosync by auto.
       assert (Z : (d_cas (doc s) =? 0) = false).
